@@ -799,6 +799,6 @@ def run(ctx: Ctx):
     # data/clip_evaluations.py, named as the backstop): C04's validator rules are necessary conditions
     from .c04 import C04
     with ctx.delegated("C04/"):
-        ctx.rule("R04.2", "relational validators: registered, reject exactly the specified condition, otherwise return input", 13)
+        ctx.rule("R04.2", "relational validators: registered, reject exactly the specified condition, otherwise return input", 12)
         C04(ctx).check_validators()
     return EXPLANATION, ASSUMPTIONS
